@@ -468,3 +468,65 @@ func verifHarness_C07_model_is_nethttp_trailer_declarations() {
 	verifC07ReferenceShape(false, 4)
 	verifAssert(false, "witness")
 }
+
+// chunk-size lines: every hexadecimal digit in both cases, with a leading
+// zero, and two-digit sizes — a direct differential between nbio's server
+// parser and the real net/http.ReadRequest (interpreted).
+func verifHarness_C07_request_chunk_size_digits() {
+	verifBound("chunk_size_max", 20)
+	d := verifByte("hex_digit")
+	isDec := verifAnd(d >= '0', d <= '9')
+	isLow := verifAnd(d >= 'a', d <= 'f')
+	isUp := verifAnd(d >= 'A', d <= 'F')
+	verifAssume(verifOr(isDec, verifOr(isLow, isUp)))
+	d = byte(verifConc(int(d))) // the solver enumerates the 22 digits; the chunk bytes stay symbolic
+	val := verifIte(isDec, int(d-'0'), verifIte(isLow, int(d-'a')+10, int(d-'A')+10))
+	var line []byte
+	switch verifChoose("form", 3) {
+	case 0:
+		verifAssume(val > 0)
+		line = []byte{d}
+	case 1:
+		verifAssume(val > 0)
+		line = []byte{'0', d}
+	case 2:
+		verifAssume(val <= 4)
+		line = []byte{'1', d}
+		val += 16
+	}
+	n := verifConc(val)
+	data := verifBytes("chunk", n)
+	w := []byte("POST /c HTTP/1.1\r\nHost: h\r\nTransfer-Encoding: chunked\r\n\r\n")
+	w = append(w, line...)
+	w = append(w, '\r', '\n')
+	w = append(w, data...)
+	w = append(w, "\r\n0\r\n\r\n"...)
+	w = append(w, "GET /next HTTP/1.1\r\nHost: n\r\n\r\n"...)
+	// the reference
+	br := bufio.NewReader(bytes.NewReader(append([]byte(nil), w...)))
+	ref, err := http.ReadRequest(br)
+	if err != nil {
+		verifFail("reference-rejects-well-formed-message", "chunk-size")
+		return
+	}
+	want := verifSnapshot(ref)
+	verifAssertD(len(want.body) == n && verifEqBytes(want.body, data), "reference-body", "net/http")
+	// nbio
+	e := verifHTTPEngine()
+	var seen []*verifSeenReq
+	e.Handler = http.HandlerFunc(func(rw http.ResponseWriter, r *http.Request) {
+		seen = append(seen, verifSnapshot(r))
+	})
+	conn := &verifNetConn{failAt: -1}
+	p := NewParser(conn, e, NewServerProcessor(), false, nil)
+	perr := p.Parse(append([]byte(nil), w...))
+	verifAssertD(perr == nil, "well-formed-message-accepted", "chunk-size")
+	verifAssertD(len(seen) == 2, "message-count", "chunk-size")
+	if len(seen) >= 1 {
+		verifAssertD(len(seen[0].body) == len(want.body) && verifEqBytes(seen[0].body, want.body), "body-bytes", "chunk-size")
+	}
+	if len(seen) == 2 {
+		verifAssertD(seen[1].uri == "/next", "successor-parsed-from-message-boundary", "chunk-size")
+	}
+	verifAssert(false, "witness")
+}
